@@ -40,5 +40,9 @@ def c03_dropna_single_1d_column(w):
 @predicate
 def c03_conversion_error_class_follows_block_order(w):
     k = w['klass']
-    return (w['what'] == 'layout_dependent_outcome' and k.get('operation') in ('astype_all', 'astype_cols')
-            and k.get('differs') == 'exc/exc')
+    if w['what'] != 'layout_dependent_outcome' or k.get('differs') != 'exc/exc':
+        return False
+    if k.get('operation') in ('astype_all', 'astype_cols'):
+        return True
+    # element-wise operators over object cells: every layout raises, which failing cell NumPy meets first follows the block shape
+    return k.get('operation') in ('binop_scalar', 'binop_array', 'unary') and 'O' in (k.get('dtype_kinds') or [])
